@@ -176,6 +176,14 @@ def work(args):
                 if rec['problems']:
                     break
             if not rec['problems']:
+                # the deep copy taken before the first move has stayed where the object started
+                fresh0 = impl.build(X0)
+                if rec.get('negated'):
+                    fresh0 = -fresh0
+                st = impl.call(lambda: (orig == fresh0, fresh0 == orig))
+                if st != ('ok', (True, True)) or not compare.same_den(impl.describe(orig), describe_exact(X0)):
+                    rec['problems'].append('the deep copy taken before the moves no longer denotes the original object: == fresh %s, is %s' % (st[1:] if st[0] != 'ok' else st[1], impl.describe(orig)))
+            if not rec['problems']:
                 back = obj.move(impl.Vc(tuple(-c for c in total)))
                 eq = impl.call(lambda: (obj == orig, back == orig, hash(obj) == hash(orig)))
                 if eq != ('ok', (True, True, True)):
